@@ -233,21 +233,14 @@ Definition valid_n (v : pyval RealA) : Prop := exists n, pyint v = Some n /\ (1 
 Definition valid_class (v : pyval RealA) : Prop := exists c, pyreal v = Some (IZR c) /\ (c = 0 \/ c = 1)%Z.
 
 Ltac rcmp :=
+  unfold Reqb, Rleb, Rltb in *;
   repeat match goal with
-  | H : context [Reqb ?x ?y] |- _ => destruct (Reqb x y) eqn:?E
-  | |- context [Reqb ?x ?y] => destruct (Reqb x y) eqn:?E
-  | H : context [Rleb ?x ?y] |- _ => destruct (Rleb x y) eqn:?E
-  | |- context [Rleb ?x ?y] => destruct (Rleb x y) eqn:?E
-  | H : context [Rltb ?x ?y] |- _ => destruct (Rltb x y) eqn:?E
-  | |- context [Rltb ?x ?y] => destruct (Rltb x y) eqn:?E
-  end;
-  repeat match goal with
-  | H : Reqb _ _ = true |- _ => apply Reqb_true in H
-  | H : Reqb _ _ = false |- _ => apply Reqb_false in H
-  | H : Rleb _ _ = true |- _ => apply Rleb_true in H
-  | H : Rleb _ _ = false |- _ => apply Rleb_false in H
-  | H : Rltb _ _ = true |- _ => apply Rltb_true in H
-  | H : Rltb _ _ = false |- _ => apply Rltb_false in H
+  | H : context [Req_EM_T ?x ?y] |- _ => destruct (Req_EM_T x y)
+  | |- context [Req_EM_T ?x ?y] => destruct (Req_EM_T x y)
+  | H : context [Rle_dec ?x ?y] |- _ => destruct (Rle_dec x y)
+  | |- context [Rle_dec ?x ?y] => destruct (Rle_dec x y)
+  | H : context [Rlt_dec ?x ?y] |- _ => destruct (Rlt_dec x y)
+  | |- context [Rlt_dec ?x ?y] => destruct (Rlt_dec x y)
   end.
 
 Lemma block_map_real : forall k, @block_map RealA k = sea_threshold k.
